@@ -10,7 +10,13 @@ quick / thorough:
   4. All recorded traces are validated by TraceRouter.tla (TLC); a rejected trace
      names the failing clause of the property => VIOLATION.
 """
-from . import common  # noqa: F401  (sets sys.path for aiortc)
+MANIFEST = dict(
+    technique="TLA+ spec RtpRouter.tla model-checked with TLC; TLC-simulated behaviours replayed into the real RtpRouter; recorded executions validated by TraceRouter.tla (TLC trace validation)",
+    text="Exhaustive TLC check of the routing design (all register/unregister/packet histories of a small universe) plus conformance of the real RtpRouter to the spec's routing rules in both directions: every recorded routing decision is judged by the TLA+ rule operators.",
+    note="Trusted: TLC, the harness' packet construction, REMB media SSRC 0 unregistered. Conformance is sampled (simulated + seeded random histories), the design check is exhaustive within the stated constants.",
+    design_ref="5/C12")
+
+from . import common  # noqa: F401,E402  (sets sys.path for aiortc)
 from .common import Report, rng, seed, tier
 from . import tlc as T
 
